@@ -1,6 +1,7 @@
 import SqlgrepModel.Lemmas.AggRun
 import SqlgrepModel.Lemmas.AggDistinct
 import SqlgrepModel.Lemmas.AggFollow
+import SqlgrepModel.Lemmas.AggColumns
 /-
 The result half of the aggregation engine: `publishPercentiles` (the first loop of `execute_result`) cell by cell,
 the enumeration of `group_values`, and the rows of the table against the specification.
@@ -623,14 +624,13 @@ theorem resultRows_view {O : Oracles} {q : AggStmt} {V : List (List Value × Lis
                 rw [ih (r' :: seen) hall']
                 simp [keptRows, hd, distinctPass, hs]
 
-theorem checkRows_view {O : Oracles} {q : AggStmt} {V : List (List Value × List (Nat × Value))}
+/-- every group of a viewed state has its row -/
+theorem rows_view {O : Oracles} {q : AggStmt} {V : List (List Value × List (Nat × Value))}
     {G : List (List Value × List Env)} (hv : Views O q V G) {all : List (List Value × Bool)}
     (h : collect (G.map (perGroup O q)) = some all) :
-    (V.foldlM (fun (_ : Unit) (x : List Value × List (Nat × Value)) => do
-      let _ ← rowOf O q x.1 x.2 (enumFrom 0 q.items)
-      pure ()) () : Outcome Unit) = .ok () := by
+    ∀ x ∈ V, ∃ r, rowOf O q x.1 x.2 (enumFrom 0 q.items) = .ok r := by
   induction hv generalizing all with
-  | nil => rfl
+  | nil => intro x hx; simp at hx
   | @cons key subs g V G hview hrest ih =>
     simp only [List.map_cons] at h
     cases hp : perGroup O q (key, g) with
@@ -642,8 +642,18 @@ theorem checkRows_view {O : Oracles} {q : AggStmt} {V : List (List Value × List
       cases hr : row O q key g with
       | none => simp [hr] at hp
       | some r' =>
-        simp only [List.foldlM_cons, row_view hview hr, bind, Outcome.bind, pure]
-        exact ih hall'
+        intro x hx
+        rcases List.mem_cons.mp hx with hx | hx
+        · subst hx; exact ⟨r', row_view hview hr⟩
+        · exact ih hall' x hx
+
+/-- the column pass of `execute_result` (`extract_result_rows_by_column`) answers on a viewed state: success does not
+depend on the order of the loops (`aggColumns_ok_iff_rows`) -/
+theorem checkRows_view {O : Oracles} {q : AggStmt} {V : List (List Value × List (Nat × Value))}
+    {G : List (List Value × List Env)} (hv : Views O q V G) {all : List (List Value × Bool)}
+    (h : collect (G.map (perGroup O q)) = some all) :
+    ∃ cs, aggColumns O q V (enumFrom 0 q.items) = .ok cs :=
+  aggColumns_ok_of_rows (rows_view hv h)
 
 /-! ### DISTINCT -/
 
@@ -927,9 +937,7 @@ theorem views_of_keys {O : Oracles} {q : AggStmt} (rows : List (List Value × En
 
 theorem aggResult_eq (O : Oracles) (q : AggStmt) (st : AggState) :
     aggResult O q st =
-      ((publishPercentiles st).vals.foldlM (fun (_ : Unit) (x : List Value × List (Nat × Value)) => do
-          let _ ← rowOf O q x.1 x.2 (enumFrom 0 q.items)
-          pure ()) () : Outcome Unit).bind (fun _ =>
+      (aggColumns O q (publishPercentiles st).vals (enumFrom 0 q.items)).bind (fun _ =>
         (resultRows O q (publishPercentiles st).vals []).bind (fun rows =>
           .ok (publishPercentiles st, { columns := q.items.map (·.name), rows := rows }))) := rfl
 
@@ -1043,7 +1051,8 @@ theorem finalResultP_refines {O : Oracles} {q : AggStmt} (hwf : StmtWF q) {st : 
       rw [hkeys] at this
       exact this
     unfold finalResult
-    rw [aggResult_eq, checkRows_view hviews hall, resultRows_view hviews [] hall]
+    obtain ⟨cs, hcs⟩ := checkRows_view hviews hall
+    rw [aggResult_eq, hcs, resultRows_view hviews [] hall]
     simp only [Outcome.bind, bind, pure]
     rw [← hspec]
     cases q.distinct <;> cases q.limit <;> simp [distinctPass_nil]
